@@ -202,7 +202,7 @@ register(
     level="proof",
     streams=["ros_e19", "supply", "fixed_point", "steps"],
     falsifier=_with_oracle_validation(fals_ros.falsify_C04),
-    partial=["PROVED for every supply process delivering at least the supply-bound function (every compliant budget placement of a periodic / deadline-constrained reservation), every release pattern within the curves, every execution time up to the WCET: the event-source analysis (all FIFO schedules), the timer analysis, the polling-point-callback analysis and the processing-chain analysis (scalar WCETs of the analysed callback / chain) over the schedule-level executor Spec SupplyTimerLegal (non-preemptive, no idling while a relevant instance is pending, no other callback started meanwhile, own instances in release order; chains: every callback instance carries the arrival time of its chain instance). Timer, polling-point and chain analyses ALSO for every run of the executor transition system itself (executor_runs_are_timer_legal, executor_runs_are_chain_legal; timer_safe_lts, polling_point_safe_lts, chain_safe_lts). Timer and polling-point analyses additionally END TO END (timer_safe_end_to_end, polling_point_safe_end_to_end; timer_safe_run, polling_point_safe_run): all hypotheses on the inputs of the run (callback table, supply process, release pattern within the curves), conclusion on the completions reported by the executable Exec.run. Remaining restrictions: scalar WCETs of the analysed callback / chain; one linear chain per run in the chain refinement"],
+    partial=["PROVED for every supply process delivering at least the supply-bound function (every compliant budget placement of a periodic / deadline-constrained reservation), every release pattern within the curves, every execution time up to the WCET: the event-source analysis (all FIFO schedules), the timer analysis, the polling-point-callback analysis and the processing-chain analysis (scalar WCETs of the analysed callback / chain) over the schedule-level executor Spec SupplyTimerLegal (non-preemptive, no idling while a relevant instance is pending, no other callback started meanwhile, own instances in release order; chains: every callback instance carries the arrival time of its chain instance). Timer, polling-point and chain analyses ALSO for every run of the executor transition system itself (executor_runs_are_timer_legal, executor_runs_are_chain_legal; timer_safe_lts, polling_point_safe_lts, chain_safe_lts). Timer and polling-point analyses additionally END TO END (timer_safe_end_to_end, polling_point_safe_end_to_end; timer_safe_run, polling_point_safe_run): all hypotheses on the inputs of the run (callback table, supply process, release pattern within the curves), conclusion on the completions reported by the executable Exec.run; the processing-chain analysis likewise (chain_safe_end_to_end: the m-th completion of the last callback is within R of the m-th release of the chain's source; chain_safe_end_to_end_nonvacuous: a concrete run attaining the bound 6). ALL EXECUTION TIMES also at the level of the transition system: RTA/Spec/Ros2ExecX.lean lets every instance run for any time between 1 and its WCET; timer_safe_all_execution_times, polling_point_safe_all_execution_times (refinement re-proved: Lemmas/ExecRefineX.lean). Remaining restrictions: scalar WCET bounds of the analysed callback / chain; one linear chain per run in the chain refinement; chains in the transition system run at their WCET"],
     explanation="busy-window proofs on an arbitrary supply process whose service in every window is bounded below by the supply-bound function (C09 soundness): FIFO for the event source; non-preemptive fixed priority with bounded blocking, interference counted up to the start of the instance, for timers; polling-point callbacks as the special case where every other callback interferes and nothing blocks; composed with the meaning of Ok(R) (C07: analyses = naive evaluation on the step offsets). Executor model specified in Lean, executed by the falsifier, its runs checked against the schedule-level Spec.",
 )
 
@@ -211,7 +211,7 @@ register(
     level="proof",
     streams=["ros_rr", "ros_bw", "supply", "steps"],
     falsifier=_with_oracle_validation(fals_ros.falsify_C05),
-    partial=["rr and bw, singleton subchains: PROVED (rr_safe, bw_safe: a self-reproducing vector of assumed bounds bounds every response time of every callback; every supply process >= sbf, every release pattern within the curves, every execution time <= scalar WCET, timers and polled callbacks with known / unknown priorities) over the schedule-level executor Spec PollingExecLegal, and for EVERY run of the executor transition system (executor_runs_are_legal, rr_safe_lts, bw_safe_lts). END TO END (rr_safe_end_to_end, bw_safe_end_to_end; rr_safe_run, bw_safe_run): all hypotheses on the inputs of the run (workload description of the callback table, supply process, release pattern within the curves, self-reproducing bound vector), conclusion on the completions reported by the executable Exec.run. Outside the property (it speaks of singleton subchains of timers and polled callbacks) and not proved: multi-callback subchains and workloads with event-source callbacks — the model of rr/bw covers them and the correspondence streams exercise them (model = code), no soundness theorem"],
+    partial=["rr and bw, singleton subchains: PROVED (rr_safe, bw_safe: a self-reproducing vector of assumed bounds bounds every response time of every callback; every supply process >= sbf, every release pattern within the curves, every execution time <= scalar WCET, timers and polled callbacks with known / unknown priorities) over the schedule-level executor Spec PollingExecLegal, and for EVERY run of the executor transition system (executor_runs_are_legal, rr_safe_lts, bw_safe_lts). END TO END (rr_safe_end_to_end, bw_safe_end_to_end; rr_safe_run, bw_safe_run): all hypotheses on the inputs of the run (workload description of the callback table, supply process, release pattern within the curves, self-reproducing bound vector), conclusion on the completions reported by the executable Exec.run (rr_safe_end_to_end_nonvacuous: a concrete run satisfying every hypothesis); the same for ALL EXECUTION TIMES between 1 and the WCET at the level of the transition system (RTA/Spec/Ros2ExecX.lean; rr_safe_all_execution_times, bw_safe_all_execution_times). Outside the property (it speaks of singleton subchains of timers and polled callbacks) and not proved: multi-callback subchains and workloads with event-source callbacks — the model of rr/bw covers them and the correspondence streams exercise them (model = code), no soundness theorem"],
     explanation="strong induction on arrival + assumed bound: instances whose bound has expired are complete; while the analysed instance waits, timers are bounded by their arrivals in the window (rr: extended by their bound; bw: from the start of the executor busy window), polled callbacks by one instance per polling window, and the number of windows by the own instances that can be pending (the polling-point bound); counting service against the supply-bound function gives the start and then the completion bound. Composed with C07 (rr, bw = naive evaluation) and with the refinement proof that runs of the executor LTS satisfy the schedule-level Spec (1868-line invariant proof).",
 )
 
